@@ -1452,7 +1452,7 @@ def _sympy_to_BlockSeries(
         # - Sympy three-valued logic requires "is False".
         # - The last check is a workaround for sympy issue #27898. (Matrices
         # with operators are never Hermitian.)
-        if check_hermitian and expr.is_hermitian is False and not expr.atoms(Operator):
+        if check_hermitian and _is_not_hermitian(expr):
             raise ValueError("Operator must be Hermitian.")
 
         expr = expr * reduce(mul, [n**i for n, i in zip(symbols, index)], 1)
@@ -1465,6 +1465,32 @@ def _sympy_to_BlockSeries(
         dimension_names=symbols,
     )
     return op
+
+
+def _is_not_hermitian(expr: sympy.Expr | sympy.MatrixBase) -> bool:
+    """Check whether a symbolic expression or matrix is provably not Hermitian.
+
+    Follows sympy's three-valued logic: undecidable cases return False.
+    """
+    if not expr.atoms(Operator):
+        return expr.is_hermitian is False
+    # Sympy cannot decide hermiticity of matrices with operators (sympy issue
+    # #27898), compare the number ordered forms of the entries instead.
+    entries = (
+        [
+            expr[i, j] - Dagger(expr[j, i])
+            for i in range(expr.rows)
+            for j in range(i, expr.cols)
+        ]
+        if isinstance(expr, sympy.MatrixBase)
+        else [expr - Dagger(expr)]
+    )
+    return any(
+        coeff.is_zero is False
+        for entry in entries
+        if entry != 0
+        for coeff in NumberOrderedForm.from_expr(entry).terms.values()
+    )
 
 
 def _to_scalar_BlockSeries(
@@ -1489,6 +1515,11 @@ def _to_scalar_BlockSeries(
     if isinstance(operator, list):
         operator = _list_to_dict(operator)
     if isinstance(operator, dict):
+        if check_hermitian and any(
+            isinstance(value, sympy.MatrixBase) and _is_not_hermitian(value)
+            for value in operator.values()
+        ):
+            raise ValueError("Operator must be Hermitian.")
         return _dict_to_BlockSeries(operator, symbols, atol)
     raise TypeError(f"Unsupported input type of Hamiltonian: {type(operator)}.")
 
